@@ -214,7 +214,21 @@ def _polarity(nf, ev):
     dep = [(a, e) for a, e in m if atom_polarity(a, ev) != "0"]
     if not dep:
       continue
-    if len(dep) == 1 and dep[0][1] == 1:
+    if len(dep) == 1 and dep[0][1] == -1:
+      # 1/u is monotone (reversed) where u keeps a strict sign
+      su = ev.strict_sign(NF.atom(dep[0][0]))
+      if su is None or su == 0:
+        return "?"
+      p = _flip(atom_polarity(dep[0][0], ev))
+      rest = NF({tuple((a, e) for a, e in m if a != dep[0][0]): c})
+      s = ev.strict_sign(rest) if not rest.is_const() else (
+          (rest.const_value() > 0) - (rest.const_value() < 0))
+      if s is None:
+        return "?"
+      if s == 0:
+        continue
+      total = _combine(total, p if s > 0 else _flip(p))
+    elif len(dep) == 1 and dep[0][1] == 1:
       p = atom_polarity(dep[0][0], ev)
       # remaining factors are x-independent: need their sign
       rest = NF({tuple((a, e) for a, e in m if a != dep[0][0]): c})
